@@ -128,8 +128,14 @@ def repo_key():
 
 
 def machinery_key():
-    return tree_hash([os.path.join(VERIF, "harness"), os.path.join(VERIF, "checks"),
-                      os.path.join(LEAN, "PestTyped", "Model"), os.path.join(LEAN, "Driver")])
+    """Only the files that determine the outcome of the shared suites (so that unrelated additions to
+    checks/ or harness/ do not invalidate cached runs)."""
+    H = os.path.join(VERIF, "harness")
+    Mo = os.path.join(LEAN, "PestTyped", "Model")
+    return tree_hash([os.path.join(H, "corpus.py"), os.path.join(H, "rawgen.py"), os.path.join(H, "common"),
+                      os.path.join(H, "tools"), os.path.join(H, "regressions"), os.path.join(VERIF, "checks", "suites.py")]
+                     + [os.path.join(Mo, f + ".lean") for f in ("Basic", "Tracker", "Node", "Run", "Tokens", "Pest", "Gen", "Spec")]
+                     + [os.path.join(LEAN, "Driver")])
 
 
 def repo_head():
